@@ -209,14 +209,15 @@ Lemma ver_cond skip (s : session) name :
   negb skip && (negb (s_verified s) || negb (mem name (s_certnames s))) = false.
 Proof. destruct skip; [reflexivity|]. intros H. destruct (H eq_refl) as [-> ->]. reflexivity. Qed.
 
-Lemma load13 sp sv name skip suite s ca now omit tlen e :
-  good sp sv name skip V13 suite s -> lookup name ca = Some s ->
+Lemma load13 sp sv sn ad skip suite s ca now omit tlen e :
+  let c2 := mkConn sp sn ad sv now omit skip suite tlen in
+  good sp sv (c_name c2) skip V13 suite s -> lookup (c_name c2) ca = Some s ->
   mem V13 (sp_vers sp) = true -> mem suite (sp_suites sp) = true ->
   now <= s_notafter s -> now <= s_useby s ->
-  load_session ca (mkConn sp name sv now omit skip suite tlen) e = mkLoaded ca (Some (ViaPsk, s)).
+  load_session ca c2 e = mkLoaded ca (Some (ViaPsk, s)).
 Proof.
-  intros G L Mv Ms T1 T2. destruct G as [gv gk gtv gts gte gver g12 g13]. destruct (g13 eq_refl) as [Hh Hn].
-  unfold load_session. cbn [c_name c_spec c_now c_skipverify]. rewrite L, gv, Mv. cbn [negb].
+  intros c2 G L Mv Ms T1 T2. subst c2. destruct G as [gv gk gtv gts gte gver g12 g13]. destruct (g13 eq_refl) as [Hh Hn].
+  unfold load_session. rewrite L. cbn [c_spec c_now c_skipverify]. rewrite gv, Mv. cbn [negb].
   replace (s_notafter s <? now) with false by (symmetry; apply N.ltb_ge; exact T1).
   rewrite (ver_cond _ _ _ gver). rewrite N.eqb_refl. cbn [negb].
   replace (s_useby s <? now) with false by (symmetry; apply N.ltb_ge; exact T2).
@@ -227,9 +228,10 @@ Proof.
   rewrite X. reflexivity.
 Qed.
 
-Lemma good_resumes13 sp sv name skip suite s ca now omit tlen :
-  good sp sv name skip V13 suite s ->
-  lookup name ca = Some s ->
+Lemma good_resumes13 sp sv sn ad skip suite s ca now omit tlen :
+  let c2 := mkConn sp sn ad sv now omit skip suite tlen in
+  good sp sv (c_name c2) skip V13 suite s ->
+  lookup (c_name c2) ca = Some s ->
   negotiate sv sp = Some V13 ->
   has_psk sp = true -> has_modes sp = true ->
   (sp_go sp = false -> psk_positions_ok (sp_exts sp) = true /\ (count_ticket (sp_exts sp) <= 1)%nat) ->
@@ -237,22 +239,21 @@ Lemma good_resumes13 sp sv name skip suite s ca now omit tlen :
   (sp_go sp = true \/ needs_hrr sv sp = false) ->
   mem suite (sp_suites sp) = true ->
   now <= s_notafter s -> now <= s_useby s -> now <= t_created (s_ticket s) + LIFETIME ->
-  let c2 := mkConn sp name sv now omit skip suite tlen in
   resumed (snd (step ca c2)) = true /\ o_offer (snd (step ca c2)) = Some (ViaPsk, s).
 Proof.
-  intros G L Ng Hp Hm Wf Sg Hr Ms T1 T2 T3 c2.
+  intros c2 G L Ng Hp Hm Wf Sg Hr Ms T1 T2 T3.
   pose proof (negotiate_mem _ _ _ Ng) as Mv.
   assert (B : build ca c2 = BOk ca (Some (ViaPsk, s)) true).
   { unfold build, c2. cbn [c_spec c_omit].
     destruct (sp_go sp) eqn:Go.
-    - rewrite (load13 sp sv name skip suite s ca now omit tlen true G L Mv Ms T1 T2). reflexivity.
+    - rewrite (load13 sp sv sn ad skip suite s ca now omit tlen true G L Mv Ms T1 T2). reflexivity.
     - destruct (Wf eq_refl) as [W1 W2]. unfold has_psk in Hp. rewrite Go in Hp. cbn [orb] in Hp.
       replace (1 <? count_ticket (sp_exts sp))%nat with false by (symmetry; apply Nat.ltb_ge; exact W2).
       rewrite W1, Hp. cbn [negb andb]. rewrite andb_false_r.
-      rewrite (load13 sp sv name skip suite s ca now omit tlen _ G L Mv Ms T1 T2). cbn [l_sess l_cache].
+      rewrite (load13 sp sv sn ad skip suite s ca now omit tlen _ G L Mv Ms T1 T2). cbn [l_sess l_cache].
       rewrite (g_vers _ _ _ _ _ _ _ G). cbn. reflexivity. }
   destruct G as [gv gk gtv gts gte gver g12 g13]. destruct (g13 eq_refl) as [Hh Hn].
-  subst c2. unfold step. rewrite B. cbn [c_spec c_srv c_suite c_now c_name]. rewrite Ng. rewrite N.eqb_refl.
+  subst c2. unfold step. rewrite B. cbn [c_spec c_srv c_suite c_now]. rewrite Ng. rewrite N.eqb_refl.
   destruct (selected_group sv sp) as [g|] eqn:SG; [|congruence].
   assert (HR : needs_hrr sv sp && negb (sp_go sp) && true = false).
   { destruct Hr as [-> | ->]; [rewrite andb_false_r|]; reflexivity. }
@@ -263,32 +264,33 @@ Proof.
   cbn. split; reflexivity.
 Qed.
 
-Lemma load12 sp sv name skip suite s ca now omit tlen :
-  good sp sv name skip V12 suite s -> lookup name ca = Some s ->
+Lemma load12 sp sv sn ad skip suite s ca now omit tlen :
+  let c2 := mkConn sp sn ad sv now omit skip suite tlen in
+  good sp sv (c_name c2) skip V12 suite s -> lookup (c_name c2) ca = Some s ->
   mem V12 (sp_vers sp) = true -> now <= s_notafter s ->
-  load_session ca (mkConn sp name sv now omit skip suite tlen) (has_ems sp) = mkLoaded ca (Some (ViaTicket, s)).
+  load_session ca c2 (has_ems sp) = mkLoaded ca (Some (ViaTicket, s)).
 Proof.
-  intros G L Mv T1. destruct G as [gv gk gtv gts gte gver g12 g13].
+  intros c2 G L Mv T1. subst c2. destruct G as [gv gk gtv gts gte gver g12 g13].
   destruct g12 as [M1 [M2 E]]; [discriminate|].
-  unfold load_session. cbn [c_name c_spec c_now c_skipverify]. rewrite L, gv, Mv. cbn [negb].
+  unfold load_session. rewrite L. cbn [c_spec c_now c_skipverify]. rewrite gv, Mv. cbn [negb].
   replace (s_notafter s <? now) with false by (symmetry; apply N.ltb_ge; exact T1).
   rewrite (ver_cond _ _ _ gver). cbn. rewrite M1, E. cbn [negb]. rewrite andb_negb_r. reflexivity.
 Qed.
 
-Lemma good_resumes12 sp sv name skip suite s ca now omit tlen :
-  good sp sv name skip V12 suite s ->
-  lookup name ca = Some s ->
+Lemma good_resumes12 sp sv sn ad skip suite s ca now omit tlen :
+  let c2 := mkConn sp sn ad sv now omit skip suite tlen in
+  good sp sv (c_name c2) skip V12 suite s ->
+  lookup (c_name c2) ca = Some s ->
   negotiate sv sp = Some V12 ->
   has_ticket sp = true ->
   (sp_go sp = false -> psk_positions_ok (sp_exts sp) = true /\ (count_ticket (sp_exts sp) <= 1)%nat /\
                        (has XPsk (sp_exts sp) = true -> omit = true)) ->
   now <= s_notafter s -> now <= t_created (s_ticket s) + LIFETIME ->
-  let c2 := mkConn sp name sv now omit skip suite tlen in
   resumed (snd (step ca c2)) = true /\ o_offer (snd (step ca c2)) = Some (ViaTicket, s).
 Proof.
-  intros G L Ng Ht Wf T1 T3 c2.
+  intros c2 G L Ng Ht Wf T1 T3.
   pose proof (negotiate_mem _ _ _ Ng) as Mv.
-  pose proof (load12 sp sv name skip suite s ca now omit tlen G L Mv T1) as LD.
+  pose proof (load12 sp sv sn ad skip suite s ca now omit tlen G L Mv T1) as LD. fold c2 in LD.
   assert (B : exists p, build ca c2 = BOk ca (Some (ViaTicket, s)) p).
   { unfold build, c2. cbn [c_spec c_omit].
     destruct (sp_go sp) eqn:Go.
@@ -301,7 +303,7 @@ Proof.
       destruct (has XPsk (sp_exts sp)) eqn:P; [rewrite (W3 eq_refl)|]; cbn; eexists; reflexivity. }
   destruct B as [p B].
   destruct G as [gv gk gtv gts gte gver g12 g13]. destruct g12 as [M1 [M2 E]]; [discriminate|].
-  subst c2. unfold step. rewrite B. cbn [c_spec c_srv c_suite c_now c_name]. rewrite Ng.
+  subst c2. unfold step. rewrite B. cbn [c_spec c_srv c_suite c_now]. rewrite Ng.
   change (V12 =? V13) with false. cbv beta iota.
   unfold opens, fresh. rewrite gk, gtv, gts, gte, !N.eqb_refl, M1, M2, E.
   replace (now <=? t_created (s_ticket s) + LIFETIME) with true by (symmetry; apply N.leb_le; exact T3).
@@ -425,12 +427,15 @@ Proof.
   { intros N. destruct Cr as [[_ T]|[E _]]; [exact T|congruence]. }
   destruct (step_stores_good ca c1 v Hc Ng Hm Ht) as [s [L [G _]]].
   exists s. split; [exact L|]. intros [T1 [T2 T3]].
-  destruct c2 as [sp2 n2 sv2 now2 om2 sk2 su2 tl2]. destruct Sc as [E1 [E2 [E3 [E4 E5]]]]. cbn in E1, E2, E3, E4, E5, Wf, Hr, T1, T2, T3. subst.
+  destruct c2 as [sp2 sn2 ad2 sv2 now2 om2 sk2 su2 tl2]. destruct Sc as [E1 [E2 [E3 [E4 E5]]]].
+  cbn [c_spec c_srv c_skipverify c_suite c_now c_omit] in E1, E3, E4, E5, Wf, Hr, T1, T2, T3. subst sp2 sv2 sk2 su2.
+  rewrite <- E2 in G, L.
   destruct Cr as [[-> T]|[-> [P [M Sg]]]].
-  - destruct (good_resumes12 _ _ _ _ _ _ _ now2 om2 tl2 G L Ng T Wf T1 T3) as [R O]. split; [exact R|eexists; exact O].
+  - destruct (good_resumes12 _ _ sn2 ad2 _ _ _ _ now2 om2 tl2 G L Ng T Wf T1 T3) as [R O]. split; [exact R|eexists; exact O].
   - assert (W : sp_go (c_spec c1) = false -> psk_positions_ok (sp_exts (c_spec c1)) = true /\ (count_ticket (sp_exts (c_spec c1)) <= 1)%nat).
     { intros g. destruct (Wf g) as [A [B _]]. auto. }
-    destruct (good_resumes13 _ _ _ _ _ _ _ now2 om2 tl2 G L Ng P M W Sg (Hr eq_refl) Ms T1 T2 T3) as [R O].
+    assert (Hr' : sp_go (c_spec c1) = true \/ needs_hrr (c_srv c1) (c_spec c1) = false) by exact (Hr eq_refl).
+    destruct (good_resumes13 _ _ sn2 ad2 _ _ _ _ now2 om2 tl2 G L Ng P M W Sg Hr' Ms T1 T2 T3) as [R O].
     split; [exact R|eexists; exact O].
 Qed.
 
@@ -543,3 +548,13 @@ Proof.
   revert ca. induction h1 as [|c r IH]; intros ca; cbn [app run final]; [reflexivity|].
   destruct (step ca c) as [ca' o] eqn:E. cbn [fst]. rewrite IH. reflexivity.
 Qed.
+
+(* ---------- the cache key function ---------- *)
+Lemma key_separates_names c1 c2 : c_sname c1 <> 0 -> c_sname c2 <> 0 -> c_sname c1 <> c_sname c2 -> c_name c1 <> c_name c2.
+Proof.
+  unfold c_name. intros H1 H2 H3. apply N.eqb_neq in H1, H2. rewrite H1, H2. exact H3.
+Qed.
+
+Lemma key_same_iff c1 c2 : c_name c1 = c_name c2 <->
+  (if c_sname c1 =? 0 then c_addr c1 else c_sname c1) = (if c_sname c2 =? 0 then c_addr c2 else c_sname c2).
+Proof. unfold c_name. reflexivity. Qed.
